@@ -414,7 +414,9 @@ fn convert_prom_to_arrow(req: &WriteRequest) -> Result<RecordBatch> {
 
             // Detect value type and route to appropriate column
             let val = sample.value;
-            if val.is_finite() && val.fract() == 0.0 {
+            // `i64::MAX as f64` is 2^63: from there on `val as i64` saturates to
+            // 2^63 - 1, which converts back to 2^63 and would pass the lossless test.
+            if val.is_finite() && val.fract() == 0.0 && val < i64::MAX as f64 {
                 // Value is an integer (no fractional part)
                 let int_val = val as i64;
 
